@@ -9,6 +9,7 @@
 //   sup                                            -> ok <tlName>=1 | <tlName>=0:<why> ; ...        (CreateValue under recover)
 //   rw1 <san> <tid> <tlName> <boxed> <hex>         -> ok <consumed> <rewritten hex | writeerr> | eof | reject | unsupported
 //   rw2 <tlName> <hex>                             -> ok <consumed> <rewritten hex> | reject | unsupported
+//   rand2 <tlName> <seed>                          -> ok <TL2 bytes of the interpreter's own Random value> | unsupported
 //   c12 <tlName> <tl1 boxed hex>                   -> ok <the value written as TL2> | reject | unsupported
 // a per-operation watchdog (VERIF_OTF_WATCHDOG_MS, default 8000) writes `crash watchdog` and exits.
 package onthefly
@@ -19,6 +20,7 @@ import (
 	"errors"
 	"fmt"
 	"io"
+	"math/rand/v2"
 	"os"
 	"sort"
 	"strconv"
@@ -150,6 +152,20 @@ func (o *vOtf) run(f []string) (out string) {
 		if _, _, err := val.ReadTL1(vUnhex(f[2]), nil, false, nil); err != nil {
 			return "reject"
 		}
+		var bb ByteBuilder
+		val.WriteTL2(&bb, false, false, 0, nil)
+		return "ok " + vHx(bb.Buf())
+	case "rand2": // rand2 <tlName> <seed>: the interpreter's own Random value, written as TL2 -> ok <hex> | unsupported
+		ins := o.tops[f[1]]
+		if ins == nil {
+			return "unsupported no-instance"
+		}
+		val, why := vCreate(ins)
+		if val == nil {
+			return "unsupported " + why
+		}
+		seed, _ := strconv.ParseUint(f[2], 10, 64)
+		val.Random(rand.New(rand.NewPCG(seed, seed^0x9e3779b97f4a7c15)))
 		var bb ByteBuilder
 		val.WriteTL2(&bb, false, false, 0, nil)
 		return "ok " + vHx(bb.Buf())
